@@ -69,7 +69,11 @@ def trees(tier):
                 ('unary', B('o1', 'a', U(u, 'b'))), ('unary', U(u, 'f(a)')), ('unary', U(u, '[a]'))]
     out += [('postfix', P('++', 'a')), ('postfix', P('++', B('o1', 'a', 'b'))), ('postfix', P('--', U('-', 'a'))),
             ('postfix', P('++', Tn('a', 'b', 'c'))), ('postfix', P('++', P('--', 'a'))), ('postfix', B('o1', P('++', 'a'), 'b')),
-            ('postfix', B('o1', 'a', P('++', 'b'))), ('postfix', P('++', 'f(a)')), ('postfix', P('++', '1'))]
+            ('postfix', B('o1', 'a', P('++', 'b'))), ('postfix', P('++', 'f(a)')), ('postfix', P('++', '1')),
+            # negated number literals in every position a negative literal could be mistaken for an atom
+            ('postfix', P('++', U('-', '5'))), ('postfix', P('--', U('-', '0.25'))), ('postfix', B('*', '3', P('++', U('-', '5')))),
+            ('unary', U('-', '5')), ('unary', U('-', U('-', '5'))), ('unary', B('-', '2', U('-', '5'))), ('unary', B('o1', U('-', '5'), '2')),
+            ('unary', U('-', P('++', '5'))), ('unary', U('!', U('-', '1'))), ('unary', '[' + U('-', '1') + ',{' + U('-', '2') + ':' + U('-', '3') + '}]')]
     # conditionals everywhere
     out += [('cond', Tn('a', 'b', 'c')), ('cond', Tn(Tn('a', 'b', 'c'), 'd', 'e')), ('cond', Tn('a', Tn('b', 'c', 'd'), 'e')),
             ('cond', Tn('a', 'b', Tn('c', 'd', 'e'))), ('cond', Tn(B('o1', 'a', 'b'), B('o2', 'c', 'd'), B('o1', 'e', 'f'))),
